@@ -6,8 +6,12 @@ import numpy as np
 
 from common import R, Rmat, Cx, fl, flmat, cfl, max_rel_err
 
-LEAN_MODULES = ["PyomaVerif.Props.C05", "PyomaVerif.Mutants.C05"]
+from common import wiring_pre_build as pre_build  # noqa: E402,F401
+
+LEAN_MODULES = ["PyomaVerif.Props.C05", "PyomaVerif.Mutants.C05", "PyomaVerif.Props.WiringRun"]
 THEOREMS = [
+    # call-site wiring of the class layer, regenerated from /repo on every run (translate_wiring.py)
+    "PV.WiringRun.C05_run_plscf",
     "PV.C05.C05_companion",
     "PV.C05.C05_companion_conv",
     "PV.C05.C05_companion_extra",
